@@ -1,5 +1,6 @@
 import FpVerif.Properties.C08
 import FpVerif.Properties.C08_Body
+import FpVerif.Properties.C08_Status
 #print axioms Fp.C08.dbuf_write_appends
 #print axioms Fp.C08.dbuf_read_prefix
 #print axioms Fp.C08.dbuf_fifo
@@ -21,3 +22,6 @@ import FpVerif.Properties.C08_Body
 #print axioms Fp.C08.cutBody_length
 #print axioms Fp.C08.cutBody_bounds
 #print axioms Fp.C08.body_any_cuts
+#print axioms Fp.C08.gen_ok_status
+#print axioms Fp.C08.every_three_digit_status_accepted
+#print axioms Fp.C08.body_refused_iff
